@@ -201,6 +201,7 @@ fn cq_op(o: &Value, built: &[String], specs: &[Spec]) -> String {
 }
 
 pub fn run_case(id: usize, input: &Value) {
+    if input["kind"] == "trace_action" { run_trace_action(id, input); return; }
     let cfgj = &input["cfg"];
     let mut cfg = RouterConfig::default();
     cfg.ignore_host_case = cfgj["ic_host"].as_bool().unwrap();
@@ -229,6 +230,7 @@ pub fn run_case(id: usize, input: &Value) {
                     let routes = redirectionio::router::Trace::get_routes_from_traces(&traces);
                     let mut t: Vec<u64> = routes.iter().map(|r| r.handler().idx as u64).collect();
                     t.sort();
+                    t.dedup(); // C17 speaks of the SET of routes in the trace (the ip matcher's trace lists a route once per matching range)
                     one.push(t);
                     let tr = router.get_trace(req);
                     let trj = serde_json::to_value(&tr).unwrap();
@@ -280,10 +282,10 @@ pub fn run_case(id: usize, input: &Value) {
 }
 
 // ------------------------------------------------------------------------------------------- generators
-const HOSTS: &[&str] = &["a.com", "b.com", "www.a.com"];
-const PATHS: &[&str] = &["/", "/x", "/x/1", "/y", "/blog/post-a", "/blog/42"];
-const PATH_TEMPLATES: &[(&str, &str)] = &[("/x/@m", "[0-9]+"), ("/blog/@m", "[a-z\\-]+"), ("/blog/@m", "[0-9]+"), ("/@m", "(?:x|y)"), ("/x@m", ".*")];
-const HOST_TEMPLATES: &[(&str, &str)] = &[("@m.a.com", "[a-z]+"), ("@m.com", "(?:a|b)"), ("www.@m", ".+")];
+const HOSTS: &[&str] = &["a.com", "b.com", "www.a.com", "Shop.a.com"];
+const PATHS: &[&str] = &["/", "/x", "/x/1", "/y", "/blog/post-a", "/blog/42", "/Blog/42"];
+const PATH_TEMPLATES: &[(&str, &str)] = &[("/x/@m", "[0-9]+"), ("/blog/@m", "[a-z\\-]+"), ("/blog/@m", "[0-9]+"), ("/@m", "(?:x|y)"), ("/x@m", ".*"), ("/Blog/@m", "[0-9]+")];
+const HOST_TEMPLATES: &[(&str, &str)] = &[("@m.a.com", "[a-z]+"), ("@m.com", "(?:a|b)"), ("www.@m", ".+"), ("Shop-@m.a.com", "[a-z]+")];
 const METHODS: &[&str] = &["GET", "POST", "PUT"];
 const HNAMES: &[&str] = &["X-A", "x-a", "Accept"];
 const HVALS: &[&str] = &["1", "abc", "text/html", "ab"];
@@ -325,8 +327,8 @@ fn gen_route(rng: &mut Rng, id: &str) -> Value {
 }
 
 fn gen_probe(rng: &mut Rng) -> Value {
-    let path = if rng.chance(2, 3) { rng.pick(PATHS).to_string() } else { rng.pick(&["/x/12", "/blog/post-b", "/x9", "/zzz", "/X"]).to_string() };
-    let host: Value = match rng.below(5) { 0 => Value::Null, 1 => json!("foo.a.com"), 2 => json!("www.b.com"), _ => json!(*rng.pick(HOSTS)) };
+    let path = if rng.chance(2, 3) { rng.pick(PATHS).to_string() } else { rng.pick(&["/x/12", "/blog/post-b", "/x9", "/zzz", "/X", "/BLOG/42", "/blog/7", "/Blog/7"]).to_string() };
+    let host: Value = match rng.below(8) { 0 => Value::Null, 1 => json!("foo.a.com"), 2 => json!("www.b.com"), 3 => json!("shop-x.a.com"), 4 => json!("Shop-x.a.com"), 5 => json!(*rng.pick(&["FOO.a.com", "shop.a.com", "WWW.B.com", "A.com"])), _ => json!(*rng.pick(HOSTS)) };
     let scheme: Value = match rng.below(4) { 0 => Value::Null, 1 => json!("http"), _ => json!("https") };
     let method: Value = match rng.below(4) { 0 => Value::Null, _ => json!(*rng.pick(METHODS)) };
     let nh = rng.below(3);
@@ -338,12 +340,37 @@ fn gen_probe(rng: &mut Rng) -> Value {
 
 fn gen_cfg(rng: &mut Rng) -> Value { json!({"ic_host": rng.chance(1, 3), "ic_path": rng.chance(1, 3), "ic_header": false, "always": rng.chance(1, 2)}) }
 
+/// routes sharing header conditions from a small pool (groups of the header matcher overlap), few other triggers
+fn header_focus(rng: &mut Rng, routes: &mut Vec<Value>, probes: &mut Vec<Value>) {
+    let pool: Vec<Value> = (0..4).map(|_| {
+        let kind = *rng.pick(&["is_defined", "is_defined", "is_not_defined", "is_equals", "contains", "starts_with"]);
+        json!({"name": *rng.pick(&["X-A", "X-B", "X-C", "Accept"]), "kind": kind, "value": *rng.pick(HVALS)})
+    }).collect();
+    for r in routes.iter_mut() {
+        if rng.chance(3, 4) {
+            let k = 1 + rng.below(3);
+            let mut hs: Vec<Value> = Vec::new();
+            for _ in 0..k { let c = rng.pick(&pool).clone(); if !hs.contains(&c) { hs.push(c); } }
+            r["headers"] = json!(hs);
+            if rng.chance(2, 3) { r["host"] = Value::Null; r["methods"] = Value::Null; r["excl"] = Value::Null; r["ips"] = Value::Null; r["dt"] = Value::Null; r["time"] = Value::Null; r["wd"] = Value::Null; r["scheme"] = Value::Null; r["path"] = json!({"s": "/x"}); }
+        }
+    }
+    for p in probes.iter_mut() {
+        let nh = rng.below(4);
+        let hs: Vec<Value> = (0..nh).map(|_| json!([*rng.pick(&["X-A", "X-B", "X-C", "Accept"]), *rng.pick(&["1", "abc", "text/html", "ab"])])).collect();
+        p["headers"] = json!(hs);
+        if rng.chance(2, 3) { p["path"] = json!("/x"); }
+    }
+}
+
 /// C01: build only, then probe
 pub fn gen_case_c01(rng: &mut Rng, trace: bool) -> Value {
     let n = 1 + rng.below(10);
     let routes: Vec<Value> = (0..n).map(|i| gen_route(rng, &format!("r{}", i))).collect();
     let ops: Vec<Value> = (0..n).map(|i| json!({"op": "ins", "r": i})).collect();
-    let probes: Vec<Value> = (0..4).map(|_| gen_probe(rng)).collect();
+    let mut routes = routes;
+    let mut probes: Vec<Value> = (0..4).map(|_| gen_probe(rng)).collect();
+    if rng.chance(1, 3) { header_focus(rng, &mut routes, &mut probes); }
     // observe only at the end: keep a single observation by making every op but the last invisible is not possible, so observe all
     json!({"cfg": gen_cfg(rng), "routes": routes, "ops": ops, "probes": probes, "trace": trace})
 }
@@ -397,14 +424,67 @@ pub fn gen_case_c02(rng: &mut Rng) -> Value {
     }
     let nops = 2 + rng.below(12);
     ops.extend(gen_ops(rng, nops, &mut live, &routes, nids, 0, &idx_of));
-    let probes: Vec<Value> = (0..4).map(|_| gen_probe(rng)).collect();
-    json!({"cfg": gen_cfg(rng), "routes": routes, "ops": ops, "probes": probes, "trace": false})
+    let mut probes: Vec<Value> = (0..4).map(|_| gen_probe(rng)).collect();
+    let mut routes = routes;
+    if rng.chance(1, 4) { header_focus(rng, &mut routes, &mut probes); }
+    let cfg = if rng.chance(1, 2) { json!({"ic_host": rng.chance(2, 3), "ic_path": rng.chance(2, 3), "ic_header": false, "always": rng.chance(1, 2)}) } else { gen_cfg(rng) };
+    json!({"cfg": cfg, "routes": routes, "ops": ops, "probes": probes, "trace": false})
 }
 
 pub fn generate(prop: &str, seed: u64, thorough: bool) -> Vec<Value> {
     match prop {
         "C01" => { let mut rng = Rng::new(seed ^ 0x01); let n = if thorough { 6000 } else { 500 }; (0..n).map(|_| gen_case_c01(&mut rng, false)).collect() }
-        "C17" => { let mut rng = Rng::new(seed ^ 0x17); let n = if thorough { 4000 } else { 350 }; (0..n).map(|_| gen_case_c01(&mut rng, true)).collect() }
+        "C17" => {
+            let mut rng = Rng::new(seed ^ 0x17); let n = if thorough { 4000 } else { 350 };
+            let mut v: Vec<Value> = (0..n).map(|_| gen_case_c01(&mut rng, true)).collect();
+            // the action trace: rule lists with pairwise distinct ranks (C05 generator), sampling off
+            let m = if thorough { 2000 } else { 250 };
+            for _ in 0..m {
+                let mut c = crate::c05::gen_case(&mut rng);
+                let k = c["rules"].as_array().unwrap().len();
+                let mut ranks: Vec<usize> = (0..k).collect();
+                for i in (1..k).rev() { let j = rng.below(i + 1); ranks.swap(i, j); }
+                for (i, r) in c["rules"].as_array_mut().unwrap().iter_mut().enumerate() { r["rank"] = json!(ranks[i]); r["sampling"] = Value::Null; }
+                c["kind"] = json!("trace_action");
+                v.push(c);
+            }
+            v
+        }
         _ => { let mut rng = Rng::new(seed ^ 0x02); let n = if thorough { 5000 } else { 400 }; (0..n).map(|_| gen_case_c02(&mut rng)).collect() }
     }
+}
+
+
+// ---------------------------------------------------------------- C17, last clause: the action trace ends in the live action (distinct ranks)
+fn run_trace_action(id: usize, input: &Value) {
+    use redirectionio::action::{Action, TraceAction};
+    use redirectionio::api::Rule;
+    let inp = input.clone();
+    let res = catch(move || {
+        let cfg = RouterConfig::default();
+        let mut router = Router::<Rule>::from_config(cfg.clone());
+        for r in inp["rules"].as_array().unwrap() { router.insert(serde_json::from_value::<Rule>(crate::c05::rule_json(r)).expect("rule")); }
+        let request = crate::c05::build_request(&inp);
+        let rebuilt = router.rebuild_request(&request);
+        let matched = router.match_request(&rebuilt);
+        let nmatched = matched.len();
+        let live = serde_json::to_value(Action::from_routes_rule(matched, &rebuilt, None)).unwrap();
+        let traces = router.trace_request(&request);
+        let steps = serde_json::to_value(TraceAction::from_trace_rules(&traces, &rebuilt)).unwrap();
+        let last = steps.as_array().unwrap().last().map(|s| s["action"].clone());
+        let default = serde_json::to_value(Action::default()).unwrap();
+        let same = match &last { Some(a) => *a == live, None => live == default };
+        (same, nmatched, steps.as_array().unwrap().len(), live, last)
+    });
+    let (same, nmatched, nsteps, live, last) = match res {
+        Ok(x) => x,
+        Err(e) => { emit(id, "", input.clone(), &["panic".to_string()], false, json!({"panic": e})); return; }
+    };
+    // encoded as a router case without operations: model and specification observe nothing, any recorded observation is a disagreement
+    let coq = format!("{{| c_cfg := {{| cf_ic_host := false; cf_ic_path := false; cf_always := true |}}; c_lower := []; c_trace := true; c_ops := []; c_probes := []; c_obs := {} |}}", if same { "[]" } else { "[[[0]]]" });
+    let mut tags = vec!["trace-action".to_string(), format!("matched:{}", nmatched.min(6)), format!("steps:{}", nsteps.min(6))];
+    let rs = input["rules"].as_array().unwrap();
+    if rs.iter().any(|r| r["reset"] == json!(true)) { tags.push("ta:reset".into()); }
+    if rs.iter().any(|r| r["stop"] == json!(true)) { tags.push("ta:stop".into()); }
+    emit(id, &coq, input.clone(), &tags, nmatched >= 2, json!({"same": same, "live": live, "last_step": last}));
 }
